@@ -17,5 +17,5 @@ def run(ctx):
     ctx.rule = ("TLC-enumerated scale objects, equality pairs and note sets (Gen_C05) + %d seeded random note sets; distinct = "
                 "distinct (operation, arguments); non-trivial = tonic with an accidental, or more than one octave, or a note set of >= 2 notes" % n_rand)
     ctx.nontrivial = lambda r: (len(r["in"].get("t", [])) > 1 or r["in"].get("n", 1) > 1 or len(r["in"].get("notes", [])) > 1 or "a" in r["in"])
-    recs = ctx.execute("c05", cases)
+    recs = ctx.execute("c05", cases, orders=2)
     ctx.validate("Trace_C05", recs, driver="c05", shard=8000)
